@@ -53,6 +53,20 @@ func newClientCfg(cfg int) *client {
 		devices = []uhppote.Device{uhppote.NewDevice("", serial, addr, "udp", nil, time.FixedZone("UTC+8", 8*3600))}
 	case 2:
 		devices = []uhppote.Device{{DeviceID: serial, Address: addr, TimeZone: time.FixedZone("UTC-8", -8*3600), Protocol: "tcp"}}
+	// 3..6: richer descriptions of the controller (door names fewer / more than doors, a DST zone
+	// through NewDevice, no address, an IPv6 address)
+	case 3:
+		devices = []uhppote.Device{{Name: "one", DeviceID: serial, Address: addr, Doors: []string{"Front"}, TimeZone: time.UTC, Protocol: "udp"}}
+	case 4:
+		tz, err := time.LoadLocation("America/Santiago")
+		if err != nil {
+			panic(err)
+		}
+		devices = []uhppote.Device{uhppote.NewDevice("new", serial, addr, "tcp", []string{"A", "B", "C", "D", "E"}, tz)}
+	case 5:
+		devices = []uhppote.Device{{Name: "", DeviceID: serial, Doors: []string{"A", "B"}}}
+	case 6:
+		devices = []uhppote.Device{{Name: "six", DeviceID: serial, Address: types.ControllerAddrFrom(netip.MustParseAddr("2001:db8::68"), 60000), Doors: []string{"A", "B", "C"}, Protocol: "udp"}}
 	}
 	c.u = uhppote.NewUHPPOTE(types.BindAddr{}, types.BroadcastAddr{}, types.ListenAddr{}, time.Second, devices, false)
 	if !drv.Install(c.u, c.fake) {
@@ -271,6 +285,13 @@ func main() {
 			if (timeBearing(op) && light) || r.Thorough() {
 				if op.Name != "GetDevice" && !op.Broadcast {
 					jobs = append(jobs, job{op: op, cfg: 1, name: name + "/configured-udp+8", run: fn}, job{op: op, cfg: 2, name: name + "/configured-tcp-8", run: fn})
+				}
+			}
+			// every operation's light families (and every single-byte field over all 256 values) through the
+			// richer descriptions of the controller
+			if (name == "baseline" || name == "all-pairs" || strings.HasSuffix(name, "/all-256")) && op.Name != "GetDevice" && !op.Broadcast {
+				for cfg := 3; cfg <= 6; cfg++ {
+					jobs = append(jobs, job{op: op, cfg: cfg, name: fmt.Sprintf("%s/rich-configuration-%d", name, cfg), run: fn})
 				}
 			}
 		}
